@@ -218,6 +218,45 @@ impl Prop for C09T {
         if bytes.is_empty() {
             return Verdict::Skip("skip:empty-history");
         }
+        // Every fault reaches the queue: the history handed to run one message at a time,
+        // pushes counted per message.  A message with k >= 1 faulty units must push between
+        // 1 and k entries (C06: all or none of the units behind a faulty one run), a message
+        // without a faulty unit none.  (How the *interface* turns an error into a queue
+        // entry - ErrorCommands' blanket ErrorHandler - is only reachable here.)
+        {
+            let mut e0 = process_exec(sc, bytes.clone(), 0);
+            e0.mode = simcore::exec::Mode::Run { sink: simcore::exec::Sink::Heapless4096, splits: bounds.clone() };
+            e0.chunks.clear();
+            let o0 = exec(&e0, st);
+            if !o0.unsupported && !o0.crashed() {
+                let mut pushes = vec![0usize; sc.msgs.len()];
+                let mut cur = 0usize;
+                for e in &o0.events {
+                    match e {
+                        Ev::Call(k) => cur = *k as usize,
+                        Ev::Err(_) => {
+                            if let Some(x) = pushes.get_mut(cur) {
+                                *x += 1
+                            }
+                        }
+                        _ => {}
+                    }
+                }
+                for (i, m) in sc.msgs.iter().enumerate() {
+                    let k = m.units.iter().filter(|u| u.fault != fault::NONE).count();
+                    if k == 0 && pushes[i] != 0 {
+                        return v("spurious-error", format!("message {i} [{}] has no faulty unit but {} error(s) reached the queue\n    {}", crate::scenario::show(&m.render()), pushes[i], brief(&o0)));
+                    }
+                    if k > 0 && pushes[i] == 0 {
+                        return v("error-lost", format!("message {i} [{}] has {k} faulty unit(s) but nothing reached the queue\n    {}", crate::scenario::show(&m.render()), brief(&o0)));
+                    }
+                    if pushes[i] > k {
+                        return v("error-duplicated", format!("message {i} [{}] has {k} faulty unit(s) but {} entries reached the queue\n    {}", crate::scenario::show(&m.render()), pushes[i], brief(&o0)));
+                    }
+                }
+                st.bump("reach:pushes_per_message_judged");
+            }
+        }
         let mut ex = process_exec(sc, bytes.clone(), 0);
         match sc.knob("run_mode") {
             Some(1) => ex.mode = simcore::exec::Mode::Run { sink: simcore::exec::Sink::Heapless4096, splits: vec![0, bytes.len()] },
@@ -360,6 +399,6 @@ impl Prop for C09T {
         ]
     }
     fn probes(&self) -> Vec<&'static str> {
-        vec!["reach:queue_overflow", "reach:history_through_run", "reach:read_empty_queue", "reach:responses_judged", "reach:queue_survived_restart", "reach:direct_trait_calls", "fired:handler_error"]
+        vec!["reach:queue_overflow", "reach:pushes_per_message_judged", "reach:history_through_run", "reach:read_empty_queue", "reach:responses_judged", "reach:queue_survived_restart", "reach:direct_trait_calls", "fired:handler_error"]
     }
 }
